@@ -174,7 +174,7 @@ func (fr *Frame) frameObligations(ri int, r retSite) {
 	sort.Strings(names)
 	a0 := fc.get(fr.pre, hAlloc)
 	for _, v := range names {
-		if v == hAlloc || v == hIter || whole[v] || strings.HasPrefix(v, "$ghost:") || v == "$xmltext" {
+		if v == hAlloc || v == hIter || v == hIterN || whole[v] || strings.HasPrefix(v, "$ghost:") || v == "$xmltext" {
 			// ghost variables are not program state
 			continue
 		}
